@@ -130,10 +130,10 @@ Qed.
 
 Lemma prog0_ok : prog_ok b0 kof bof [] prog0 (g_child b0 1).
 Proof.
-  destruct child_ghost_ok as (Hh & Hs & Hex). unfold prog0. cbn [prog_ok]. split; [left; reflexivity|].
+  destruct child_ghost_ok as (Hh & Hs & Hex). unfold prog0. cbn [prog_ok].
   apply ok_clone_n; [exact Hh|exact Hs|]. intros g1 S1 E1.
   apply (prog_ok_spawns _ _ _ 1); [exact S1|rewrite seq_length; rewrite E1; cbn [g_child g_refs]; rewrite Nat.eqb_refl; lia|].
-  intros g2 S2 R2. cbn [prog_ok]. split; [left; reflexivity|]. apply (ok_hrun b0).
+  intros g2 S2 R2. cbn [prog_ok]. apply (ok_hrun b0).
   - unfold r0; cbn [holds]; split; [lia|apply S2].
   - exact S2.
   - unfold r0. cbn [nm]. rewrite Nat.eqb_refl. exact R2.
@@ -158,14 +158,14 @@ Proof.
     unfold gettc. cbn [tc]. rewrite nth_tc0 by exact Ht. cbn [cur rest gh].
     pose proof (T_init n t) as E. unfold T in E. rewrite E in Hst |- *.
     destruct t as [|t]; cbn [Nat.eqb] in *; [|cbn in Hst; discriminate].
-    split; [|split; [cbn [okc lt]; exact prog0_ok|split; [intros _; reflexivity|cbn [g_child g_bor]; discriminate]]].
-    cbn. unfold agree. cbn. rewrite Nat.eqb_refl. repeat split; auto. discriminate.
+    split; [|split; [cbn [okc lt]; exact prog0_ok|cbn [g_child g_bor]; discriminate]].
+    cbn. unfold agree, agreeh. cbn. rewrite Nat.eqb_refl. repeat split; auto. discriminate.
   - intros t Ht Hst. unfold tc0 in Ht. cbn [length] in Ht. rewrite map_length, seq_length in Ht.
     unfold gettc. cbn [tc]. rewrite nth_tc0 by exact Ht. cbn [cur rest gh].
     pose proof (T_init n t) as E. unfold T in E. rewrite E in Hst.
     destruct t as [|t]; cbn [Nat.eqb] in *; [cbn in Hst; discriminate|].
     split; [reflexivity|]. split; [reflexivity|]. split; [reflexivity|]. split.
-    + unfold g_init, bof. unfold child_prog. cbn [prog_ok]. split; [left; reflexivity|].
+    + unfold g_init, bof. unfold child_prog. cbn [prog_ok].
       destruct child_ghost_ok as (Hh & Hs & Hex). apply (ok_hrun b0); [exact Hh|exact Hs|exact Hex|].
       intros g' S' R'. cbn [prog_ok]. split; [reflexivity|]. split; [exact R'|apply S'].
     + pose proof (T_init n (S t)) as E'. unfold T, getth in E'. unfold getth. rewrite E'. reflexivity.
@@ -231,90 +231,118 @@ Qed.
 Section Scoped.
 Variable b0 : bufid.
 Variable l0 : N.
-Variable n : nat.                       (* number of scoped threads *)
+Variable n : nat.                       (* S n scoped threads *)
 Variable bopsf : nat -> list bop.       (* what each scoped thread does through the borrowed handle *)
+Variable ops1 : list hop.               (* what the owner does with its OTHER handle while the scope is open *)
+Variable lops : list bop.               (* what the owner does through the handle it has lent, while the scope is open *)
 Variable ops0 : list hop.               (* what the owner does with its handle after the scope *)
-Variable nreads : nat.                  (* how often the owner reads its (lent) handle while the scope is open *)
 Let r0 := Heap b0 l0.
 Let kof := fun _ : nat => 0.
 Let bof := fun t : nat => negb (Nat.eqb t 0).
 
-Definition oread : cmd unit := _ <- as_bytes r0 ;; Ret tt.
+(* the owner holds two handles on the buffer; it lends one of them to S n scoped threads and, while they run, goes on
+   editing and finally drops the other one, and reads and clones through the lent one like any borrower; when the scope
+   has ended it edits the handle it had lent *)
 Definition sprog0 : list pitem :=
-  map PLend (seq 1 n) ++ repeat (POp oread) nreads ++ map PJoinB (rev (seq 1 n)) ++ [POp (hrun ops0 r0)].
+  POp (clone_n 1 r0) :: map PLend (seq 1 (S n)) ++ [POp (hrun ops1 r0); POp (brun lops r0)] ++ map PJoinB (rev (seq 1 (S n)))
+  ++ [POp (hrun ops0 r0)].
 Definition schild_prog (i : nat) : list pitem := [POp (brun (bopsf i) r0)].
 Definition stc0 : list tcfg :=
   {| cur := Ret tt; rest := sprog0; gh := g_child b0 1; lt := [] |}
-  :: map (fun i => {| cur := Ret tt; rest := schild_prog i; gh := g_childb b0; lt := [] |}) (seq 1 n).
-Definition scfg0 : cfg := {| ms := Mach.init n; tc := stc0 |}.
-
-(* what the owner's ghost keeps through any number of loans *)
-Definition owner_ok (g : ghost) : Prop :=
-  holds g r0 /\ settled g /\ g_refs g b0 = 1 /\ g_bor g b0 = false.
-Lemma owner_ok_lendout g : owner_ok g -> owner_ok (g_lendout b0 g).
-Proof. intros (H1 & H2 & H3 & H4). unfold owner_ok, g_lendout, r0 in *. cbn [holds g_refs g_free g_bor] in *. auto. Qed.
+  :: map (fun i => {| cur := Ret tt; rest := schild_prog i; gh := g_childb b0; lt := [] |}) (seq 1 (S n)).
+Definition scfg0 : cfg := {| ms := Mach.init (S n); tc := stc0 |}.
 
 Lemma remove_head_notin (a : nat) l : ~ In a l -> List.remove Nat.eq_dec a (a :: l) = l.
 Proof.
   intros H. cbn [List.remove]. destruct (Nat.eq_dec a a) as [_|Hne]; [|contradiction]. apply notin_remove. exact H.
 Qed.
 
-(* the owner's read-only operations while the scope is open: typed under any set of outstanding loans *)
-Lemma ro_oread : ro b0 oread.
-Proof. unfold oread, r0. cbn. auto. Qed.
-Lemma prog_ok_reads k : forall lent g rest,
-  owner_ok g -> (forall g', owner_ok g' -> prog_ok b0 kof bof lent rest g') ->
-  prog_ok b0 kof bof lent (repeat (POp oread) k ++ rest) g.
-Proof.
-  induction k as [|k IH]; intros lent g rest Hg HQ; cbn [repeat app].
-  - apply HQ. exact Hg.
-  - cbn [prog_ok]. split; [right; exact ro_oread|]. unfold oread. apply okc_bind.
-    destruct Hg as (H1 & H2 & H3 & H4). apply ok_as_bytes; [exact H1|]. intros t. cbn [okc].
-    apply IH; [exact (conj H1 (conj H2 (conj H3 H4)))|exact HQ].
-Qed.
-
-Lemma prog_ok_scope l : forall lent g mid rest,
-  NoDup l -> (forall i, In i l -> bof i = true /\ ~ In i lent) -> owner_ok g ->
-  (forall lent' g' r', owner_ok g' -> (forall g'', owner_ok g'' -> prog_ok b0 kof bof lent' r' g'') ->
-                       prog_ok b0 kof bof lent' (mid ++ r') g') ->
-  (forall g', owner_ok g' -> prog_ok b0 kof bof lent rest g') ->
+(* further loans of a handle that is already lent, and their ends: the ghost is untouched *)
+Lemma prog_ok_inner l : forall lent g (Pout : ghost -> Prop) mid rest,
+  lent <> [] -> NoDup l -> (forall i, In i l -> bof i = true /\ ~ In i lent) ->
+  (forall lent' r', (forall g'', Pout g'' -> prog_ok b0 kof bof lent' r' g'') -> prog_ok b0 kof bof lent' (mid ++ r') g) ->
+  (forall g'', Pout g'' -> prog_ok b0 kof bof lent rest g'') ->
   prog_ok b0 kof bof lent (map PLend l ++ mid ++ map PJoinB (rev l) ++ rest) g.
 Proof.
-  induction l as [|a l IH]; intros lent g mid rest Hnd Hl Hg Hmid HQ.
-  - cbn [map rev app]. apply Hmid; [exact Hg|exact HQ].
+  induction l as [|a l IH]; intros lent g Pout mid rest Hne Hnd Hl Hmid HQ.
+  - cbn [map rev app]. apply Hmid. exact HQ.
   - cbn [map rev app prog_ok]. inversion Hnd as [|? ? Hna Hnd']; subst.
-    destruct (Hl a (or_introl eq_refl)) as (Hb & Hnl). destruct Hg as (H1 & H2 & H3 & H4).
-    split; [rewrite H3; lia|]. split; [exact H4|]. split; [exact Hb|].
+    destruct (Hl a (or_introl eq_refl)) as (Hb & Hnl).
+    split; [intros E; contradiction|]. split; [exact Hb|].
+    assert (Eg : g_lendout b0 lent g = g) by (destruct lent; [contradiction|reflexivity]). rewrite Eg.
     rewrite map_app. cbn [map]. rewrite <- app_assoc. cbn [app].
-    apply IH.
+    apply (IH (a :: lent) g Pout mid (PJoinB a :: rest)).
+    + discriminate.
     + exact Hnd'.
     + intros i Hi. destruct (Hl i (or_intror Hi)) as (Hbi & Hni). split; [exact Hbi|].
       intros [E|Hin]; [subst; contradiction|contradiction].
-    + apply owner_ok_lendout. exact (conj H1 (conj H2 (conj H3 H4))).
     + exact Hmid.
-    + intros g' Hg'. cbn [prog_ok]. split; [left; reflexivity|]. rewrite remove_head_notin by exact Hnl. apply HQ. exact Hg'.
+    + intros g'' Hg''. cbn [prog_ok]. split; [left; reflexivity|]. rewrite remove_head_notin by exact Hnl.
+      assert (Eg' : g_joinb b0 lent g'' = g'') by (destruct lent; [contradiction|reflexivity]). rewrite Eg'. apply HQ. exact Hg''.
+Qed.
+(* a whole scope: the first loan sets the lent handle aside, the end of the last one gives it back *)
+Lemma prog_ok_scope a l : forall g (Pout : ghost -> Prop) mid rest,
+  NoDup (a :: l) -> (forall i, In i (a :: l) -> bof i = true) ->
+  0 < g_refs g b0 -> g_bor g b0 = false ->
+  (forall lent' r', (forall g'', Pout g'' -> prog_ok b0 kof bof lent' r' g'') -> prog_ok b0 kof bof lent' (mid ++ r') (g_hide b0 g)) ->
+  (forall g'', Pout g'' -> prog_ok b0 kof bof [] rest (g_unhide b0 g'')) ->
+  prog_ok b0 kof bof [] (map PLend (a :: l) ++ mid ++ map PJoinB (rev (a :: l)) ++ rest) g.
+Proof.
+  intros g Pout mid rest Hnd Hb Hr Hnb Hmid HQ. inversion Hnd as [|? ? Hna Hnd']; subst.
+  cbn [map rev app prog_ok]. split; [intros _; split; assumption|]. split; [apply Hb; left; reflexivity|].
+  cbn [g_lendout]. rewrite map_app. cbn [map]. rewrite <- app_assoc. cbn [app].
+  apply (prog_ok_inner l [a] (g_hide b0 g) Pout mid (PJoinB a :: rest)).
+  - discriminate.
+  - exact Hnd'.
+  - intros i Hi. split; [apply Hb; right; exact Hi|]. intros [E|[]]. subst. contradiction.
+  - exact Hmid.
+  - intros g'' Hg''. cbn [prog_ok]. split; [left; reflexivity|]. rewrite remove_head_notin by (intros []).
+    cbn [g_joinb]. apply HQ. exact Hg''.
 Qed.
 
 Lemma sprog0_ok : prog_ok b0 kof bof [] sprog0 (g_child b0 1).
 Proof.
-  unfold sprog0. apply prog_ok_scope.
-  - apply seq_NoDup.
-  - intros i Hi. apply in_seq in Hi. split; [|intros []]. unfold bof. destruct i; [lia|reflexivity].
-  - unfold owner_ok, r0. cbn [holds g_child g_refs g_free g_bor]. rewrite Nat.eqb_refl.
-    split; [split; [lia|reflexivity]|]. split; [intros b; reflexivity|]. split; reflexivity.
-  - intros lent' g' r' Hg' HQ'. apply prog_ok_reads; assumption.
-  - intros g' (H1 & H2 & H3 & H4). cbn [prog_ok]. split; [left; reflexivity|]. apply (ok_hrun b0); [exact H1|exact H2| |].
-    + unfold r0. cbn [nm]. rewrite Nat.eqb_refl. exact H3.
-    + intros g2 S2 R2. cbn [prog_ok]. split; [reflexivity|]. split; [exact R2|apply S2].
+  unfold sprog0. cbn [prog_ok].
+  assert (H0 : holds (g_child b0 1) r0 /\ settled (g_child b0 1)).
+  { unfold r0. cbn [holds g_child g_refs g_free]. rewrite Nat.eqb_refl. split; [split; [lia|reflexivity]|intros b; reflexivity]. }
+  destruct H0 as (Hh0 & Hs0).
+  eapply okc_mono; [apply okc_bor; apply (ok_clone_n b0 l0 1 (g_child b0 1) (fun _ g' => settled g' /\ g_refs g' b0 = 2)); auto|].
+  { intros g' S' E'. split; [exact S'|]. rewrite E'. cbn [g_child g_refs]. rewrite Nat.eqb_refl. reflexivity. }
+  intros u g1 ((S1 & R1) & B1).
+  change (seq 1 (S n)) with (1 :: seq 2 n).
+  apply (prog_ok_scope 1 (seq 2 n) g1 (fun g'' => settled g'' /\ g_refs g'' b0 = 0) [POp (hrun ops1 r0); POp (brun lops r0)]).
+  - apply (seq_NoDup (S n) 1).
+  - intros i Hi. change (1 :: seq 2 n) with (seq 1 (S n)) in Hi. apply in_seq in Hi. unfold bof. destruct i; [lia|reflexivity].
+  - lia.
+  - rewrite B1. reflexivity.
+  - (* while the scope is open *)
+    intros lent' r' HQ. cbn [app prog_ok].
+    assert (Sh : settled (g_hide b0 g1)) by (intros b; apply S1).
+    assert (Rh : g_refs (g_hide b0 g1) b0 = 1) by (unfold g_hide; cbn [g_refs]; unfold setf; rewrite Nat.eqb_refl; lia).
+    assert (Bh : g_bor (g_hide b0 g1) b0 = true) by (unfold g_hide; cbn [g_bor]; unfold setf; rewrite Nat.eqb_refl; reflexivity).
+    eapply okc_mono; [apply okc_bor; apply (ok_hrun b0 ops1 r0 (g_hide b0 g1) (fun _ g' => settled g' /\ g_refs g' b0 = 0)); auto|].
+    + unfold r0. cbn [holds]. split; [lia|apply Sh].
+    + unfold r0. cbn [nm]. rewrite Nat.eqb_refl. exact Rh.
+    + intros u2 g2 ((S2 & R2) & B2). cbn [prog_ok].
+      apply (ok_brun b0 l0 lops g2); [|exact S2|exact R2|].
+      * cbn [borrows]. rewrite B2. split; [exact Bh|apply S2].
+      * intros g3 S3 R3. apply HQ. split; assumption.
+  - (* after the scope: the handle that was lent *)
+    intros g'' (S'' & R''). cbn [prog_ok].
+    assert (Su : settled (g_unhide b0 g'')) by (intros b; apply S'').
+    assert (Ru : g_refs (g_unhide b0 g'') b0 = 1) by (unfold g_unhide; cbn [g_refs]; unfold setf; rewrite Nat.eqb_refl; lia).
+    apply (ok_hrun b0); [unfold r0; cbn [holds]; split; [lia|apply Su]|exact Su| |].
+    + unfold r0. cbn [nm]. rewrite Nat.eqb_refl. exact Ru.
+    + intros g4 S4 R4. cbn [prog_ok]. split; [reflexivity|]. split; [exact R4|apply S4].
 Qed.
 
-Lemma nth_stc0 t : t < S n ->
+Lemma nth_stc0 t : t < S (S n) ->
   nth t stc0 (dtc b0) = {| cur := Ret tt; rest := (if Nat.eqb t 0 then sprog0 else schild_prog t);
                            gh := (if Nat.eqb t 0 then g_child b0 1 else g_childb b0); lt := [] |}.
 Proof.
   intros Ht. unfold stc0. destruct t as [|t]; [reflexivity|]. cbn [nth Nat.eqb].
   rewrite (nth_indep _ _ {| cur := Ret tt; rest := schild_prog 0; gh := g_childb b0; lt := [] |}) by (rewrite map_length, seq_length; lia).
-  rewrite (map_nth (fun i => {| cur := Ret tt; rest := schild_prog i; gh := g_childb b0; lt := [] |}) (seq 1 n) 0 t).
+  rewrite (map_nth (fun i => {| cur := Ret tt; rest := schild_prog i; gh := g_childb b0; lt := [] |}) (seq 1 (S n)) 0 t).
   rewrite seq_nth by lia. reflexivity.
 Qed.
 
@@ -325,22 +353,22 @@ Proof.
   - unfold stc0, Mach.init. cbn [length ths]. rewrite map_length, seq_length, repeat_length. reflexivity.
   - intros t Ht Hst. unfold stc0 in Ht. cbn [length] in Ht. rewrite map_length, seq_length in Ht.
     unfold gettc. cbn [tc]. rewrite nth_stc0 by exact Ht. cbn [cur rest gh lt].
-    pose proof (T_init n t) as E. unfold T in E. rewrite E in Hst |- *.
+    pose proof (T_init (S n) t) as E. unfold T in E. rewrite E in Hst |- *.
     destruct t as [|t]; cbn [Nat.eqb] in *; [|cbn in Hst; discriminate].
-    split; [|split; [cbn [okc]; exact sprog0_ok|split; [intros _; reflexivity|cbn [g_child g_bor]; discriminate]]].
-    cbn. unfold agree. cbn. rewrite Nat.eqb_refl. repeat split; auto. discriminate.
+    split; [|split; [cbn [okc]; exact sprog0_ok|cbn [g_child g_bor]; discriminate]].
+    cbn. unfold agreeh. cbn. rewrite Nat.eqb_refl. repeat split; auto. discriminate.
   - intros t Ht Hst. unfold stc0 in Ht. cbn [length] in Ht. rewrite map_length, seq_length in Ht.
     unfold gettc. cbn [tc]. rewrite nth_stc0 by exact Ht. cbn [cur rest gh lt].
-    pose proof (T_init n t) as E. unfold T in E. rewrite E in Hst.
+    pose proof (T_init (S n) t) as E. unfold T in E. rewrite E in Hst.
     destruct t as [|t]; cbn [Nat.eqb] in *; [cbn in Hst; discriminate|].
     split; [reflexivity|]. unfold g_init, bof. cbn [Nat.eqb negb]. split; [reflexivity|]. split; [reflexivity|]. split.
-    + unfold schild_prog. cbn [prog_ok]. split; [left; reflexivity|]. apply (ok_brun b0 l0).
+    + unfold schild_prog. cbn [prog_ok]. apply (ok_brun b0 l0).
       * cbn [borrows g_childb g_bor g_free]. rewrite Nat.eqb_refl. auto.
       * intros b. reflexivity.
       * reflexivity.
       * intros g' S' R'. cbn [prog_ok]. split; [reflexivity|]. split; [exact R'|apply S'].
-    + pose proof (T_init n (S t)) as E'. unfold T, getth in E'. unfold getth. rewrite E'. reflexivity.
-  - intros u v. pose proof (T_init n u) as E. unfold T in E. rewrite E. split.
+    + pose proof (T_init (S n) (S t)) as E'. unfold T, getth in E'. unfold getth. rewrite E'. reflexivity.
+  - intros u v. pose proof (T_init (S n) u) as E. unfold T in E. rewrite E. split.
     + destruct u; cbn; discriminate.
     + intros (Hv & Hin). unfold stc0 in Hv. cbn [length] in Hv. rewrite map_length, seq_length in Hv.
       unfold gettc in Hin. cbn [tc] in Hin. rewrite nth_stc0 in Hin by exact Hv. cbn [lt] in Hin. contradiction.
